@@ -91,6 +91,13 @@ deriving Repr, Inhabited
 /-- `str(i)` -/
 def strInt (i : Int) : String := toString i
 
+/-- Python `a < b` on bytes: lexicographic, a proper prefix is smaller -/
+def bytesLt : Bytes → Bytes → Bool
+  | [], [] => false
+  | [], _ :: _ => true
+  | _ :: _, [] => false
+  | a :: as, b :: bs => if a.toNat < b.toNat then true else if a.toNat > b.toNat then false else bytesLt as bs
+
 /-- `bytes(x ^ y for (x, y) in zip(a, b))` -/
 def xorBytes (a b : Bytes) : Bytes := (a.zip b).map fun p => p.1 ^^^ p.2
 
